@@ -200,6 +200,13 @@ def build(ev, ref, t_us, server_side=False, conn=None, queue=None):
         exp['target'] = ref.label(1)
         args = [['nil'], ['int', 3], ['str', '[1.000] <%s>  -> wl_display@1.sync(new id wl_callback@9' % ev[1]]]
         exp['args'] = [('nil', None), ('int', None), ('str', None)]
+    elif k == 'orphan':
+        # a message on an id this history never created (the log started late): shown unresolved, still counted
+        sent, iface, oid, name = True, 'zz_q', 77, 'foo'
+        exp['target'] = 'zz_q@77?'
+        exp['orphan'] = True
+        args = [['int', 1]]
+        exp['args'] = [('int', None)]
     elif k == 'foreign':
         _, i = ev
         sent, iface, oid, name = True, 'zz_f', FACTORY_ID, 'delete_id'
@@ -223,6 +230,10 @@ def check_line(rec, exp):
     Returns a list of (what, expected, observed)."""
     from .. import outparse
     bad = []
+    if exp.get('orphan'):
+        if rec['obj']['id'] != 77 or rec['obj']['resolved'] or rec['name'] != exp['name']:
+            bad.append(('target', exp['target'], outparse.label(rec['obj'])))
+        return bad
     if outparse.label(rec['obj']) != exp['target'] or not rec['obj']['resolved']:
         bad.append(('target', exp['target'], outparse.label(rec['obj'])))
     if rec['name'] != exp['name']:
